@@ -845,7 +845,7 @@ theorem sp_acceptCIString (str tl : Text) :
   unfold acceptCIString
   simp only [peek_cons hs, ↓reduceIte]
   have hst : Stop ({ (s.adv 1) with start := (s.adv 1).pos } : St).rest := by
-    simp only [rest_setStart, adv_rest, hs, List.drop_succ_cons, List.drop_zero]
+    simp only [adv_rest, hs, List.drop_succ_cons, List.drop_zero]
     exact stop_tokc _ (by decide)
   rw [skipTrivia_stop hst]
   have hp : ({ (s.adv 1) with start := (s.adv 1).pos } : St).peek = some 34 :=
@@ -1309,7 +1309,7 @@ theorem findNewline_cons {c : Nat} {t : Text} (h10 : c ≠ 10) (h13 : c = 13 →
     | cons d t' =>
       have hd : d ≠ 10 := by simpa using h13 rfl
       simp [findNewline, hd]
-  · simp [findNewline, h10, hc]
+  · simp [findNewline, hc]
 
 theorem findNewline_cons_inv {c : Nat} {t : Text} {n : Nat}
     (h : findNewline (c :: t) = some (n + 1)) : c ≠ 10 ∧ (c = 13 → t.head? ≠ some 10) := by
